@@ -24,16 +24,25 @@
 
    Decorator kinds: plain (undecorated control), asynq, pure = asynq(pure=True), proxy_task / proxy_const =
    async_proxy() returning a task / a ConstFuture, asynq_sync / proxy_sync = the sync_fn pairs, mad = a decorator
-   built with make_async_decorator (it wraps the result, so that the wrapper is seen to run), dedup =
+   built with make_async_decorator (it wraps the result, so that the wrapper is seen to run; mad_done / mad_const:
+   its wrapper_fn hands back an ALREADY COMPUTED task / a ConstFuture or ErrorFuture), dedup =
    deduplicate(), aretry / alru / acpi = the function-style wrappers of asynq.tools. *)
 EXTENDS Naturals, Sequences, FiniteSets, TLC, Json, IOUtils
 
 MaxCalls == IF "CALLS" \in DOMAIN IOEnv THEN atoi(IOEnv.CALLS) ELSE 1
 Pats     == IF "PATS" \in DOMAIN IOEnv THEN IOEnv.PATS ELSE "all"      \* "all" | "few" | "one"
 MaxWrap  == IF "WRAPS" \in DOMAIN IOEnv THEN atoi(IOEnv.WRAPS) ELSE 2   \* layers of foreign wrappers
+NewDims  == "NEWDIMS" \in DOMAIN IOEnv /\ IOEnv.NEWDIMS = "1"
+(* NEWDIMS=1 opens three further dimensions: the body ends with `result(x); return` instead of `return x`;
+   the body RAISES instead of returning (outcome = that exception, for every convention); the call is made
+   from INSIDE a running task instead of from the top level *)
+Endings  == IF NewDims THEN {"return", "result"} ELSE {"return"}
+Fails    == IF NewDims THEN {0, 1} ELSE {0}
+Ctxs     == IF NewDims THEN {"top", "task"} ELSE {"top"}
 
-Decos  == {"plain", "asynq", "pure", "proxy_task", "proxy_const", "asynq_sync", "proxy_sync", "mad", "dedup",
-           "aretry", "alru", "acpi"}
+Mads   == {"mad", "mad_done", "mad_const"}
+Decos  == {"plain", "asynq", "pure", "proxy_task", "proxy_const", "asynq_sync", "proxy_sync", "dedup",
+           "aretry", "alru", "acpi"} \cup Mads
 DefKs  == {"function", "method", "classmethod", "staticmethod"}
 Bodies == {"plain", "gen", "batch"}
 Convs  == {"sync", "asynq", "yield", "async_call", "get_async_fn", "get_async_or_sync_fn"}
@@ -42,11 +51,12 @@ ArgPats == CASE Pats = "few" -> {"pos", "kwonly"} [] Pats = "one" -> {"pos"} [] 
 
 (* combinations that exist: the function-style wrappers only on the bindings they are written for; a
    ConstFuture / an undecorated function has no generator body; caches are not called twice (C13 owns that) *)
+EndingOk(d, e) == e = "result" => d \notin {"plain", "proxy_const"}       \* result() needs an asynq body
 Meaningful(d, k, b) ==
   /\ d \in {"aretry", "alru"} => k \in {"function", "method"}
   /\ d = "acpi" => k = "method"
   /\ d \in {"proxy_const", "plain"} => b = "plain"
-  /\ MaxCalls > 1 => d \notin {"alru", "acpi"}
+  /\ MaxCalls > 1 => d \notin {"alru", "acpi", "mad_done", "mad_const"}
 
 ViasOf(k) == CASE k = "function" -> {"direct"}
                [] k = "method" -> {"inst", "cls", "subinst", "falsy"}      \* "cls": C.meth(inst, ...)
@@ -64,11 +74,11 @@ ConvsOf(d, w) == CASE d = "pure" -> Convs \ {"asynq"}
                    [] d = "plain" \/ w > 0 -> {"sync", "async_call", "get_async_or_sync_fn"}
                    [] OTHER -> Convs
 
-VARIABLES deco, defk, body, obj, hist
-vars == <<deco, defk, body, obj, hist>>
+VARIABLES deco, defk, body, ending, fail, obj, hist
+vars == <<deco, defk, body, ending, fail, obj, hist>>
 NoObj == [via |-> "none", inst |-> "none", wrap |-> 0]
 
-Init == deco = "none" /\ defk = "none" /\ body = "none" /\ obj = NoObj /\ hist = <<>>
+Init == deco = "none" /\ defk = "none" /\ body = "none" /\ ending = "none" /\ fail = 0 /\ obj = NoObj /\ hist = <<>>
 
 (* ---- argument binding: def body([first,] a, b=20, *, k=30) ---- *)
 Off == 10 * Len(hist)                            \* different values in every call of a history
@@ -97,11 +107,14 @@ ReturnsFuture(d, w, c) == CASE c = "sync" -> IsPure(d)
                          [] c = "get_async_or_sync_fn" -> IF w = 0 THEN d # "plain" ELSE IsPure(d)
                          [] c \in {"asynq", "get_async_fn"} -> TRUE
                          [] OTHER -> FALSE          \* the value is delivered to the yielding task
+(* Stated has no parameter for the place the call is made from or for the way the body hands back its value:
+   the prescription is the same from the top level and from inside a task, for `return x` and `result(x)`.
+   err = 1: the outcome is the exception the body raised (carrying ran / bound / a / b / k / extra). *)
 Stated(d, k, b, via, w, c, p) ==
   LET n == Normalise(PosOf(p), KwOf(p))
       ran == StatedRan(d, w, c) IN
   [ran |-> ran, bound |-> StatedBound(k, via), a |-> n.a, b |-> n.b, k |-> n.k,
-   extra |-> Extra(d, b, ran, n.a), wrapped |-> IF d = "mad" THEN 1 ELSE 0,
+   extra |-> Extra(d, b, ran, n.a), wrapped |-> IF d \in Mads THEN 1 ELSE 0, err |-> fail,
    fut |-> IF ReturnsFuture(d, w, c) THEN 1 ELSE 0]
 
 Classification(d, w) ==
@@ -127,28 +140,28 @@ Derived(d, k, o, c) ==          \* a foreign wrapper forwards its arguments unch
   [ran |-> ran, prefix |-> prefix]
 
 (* ---- actions ---- *)
-Decorate(d, k, b) ==
-  /\ deco = "none" /\ Meaningful(d, k, b)
-  /\ deco' = d /\ defk' = k /\ body' = b
+Decorate(d, k, b, e, f) ==
+  /\ deco = "none" /\ Meaningful(d, k, b) /\ EndingOk(d, e)
+  /\ deco' = d /\ defk' = k /\ body' = b /\ ending' = e /\ fail' = f
   /\ UNCHANGED <<obj, hist>>
 
 Access(via, w) ==
   /\ deco # "none" /\ obj = NoObj /\ Len(hist) < MaxCalls /\ via \in ViasOf(defk)
   /\ obj' = [via |-> via, wrap |-> w, inst |-> IF defk = "function" THEN "none"
                                    ELSE BindGet(TypeOf(defk), OwnerOf(via), ClassOf(via))]
-  /\ UNCHANGED <<deco, defk, body, hist>>
+  /\ UNCHANGED <<deco, defk, body, ending, fail, hist>>
 
-Call(c, p) ==
+Call(c, p, x) ==
   /\ obj # NoObj /\ c \in ConvsOf(deco, obj.wrap)
-  /\ hist' = Append(hist, [via |-> obj.via, wrap |-> obj.wrap, conv |-> c, argp |-> p, pos |-> PosOf(p), kw |-> KwOf(p),
+  /\ hist' = Append(hist, [via |-> obj.via, wrap |-> obj.wrap, conv |-> c, ctx |-> x, argp |-> p, pos |-> PosOf(p), kw |-> KwOf(p),
                            cls |-> Classification(deco, obj.wrap),
                            res |-> Stated(deco, defk, body, obj.via, obj.wrap, c, p)])
   /\ obj' = NoObj
-  /\ UNCHANGED <<deco, defk, body>>
+  /\ UNCHANGED <<deco, defk, body, ending, fail>>
 
-Next == \/ \E d \in Decos, k \in DefKs, b \in Bodies : Decorate(d, k, b)
+Next == \/ \E d \in Decos, k \in DefKs, b \in Bodies, e \in Endings, f \in Fails : Decorate(d, k, b, e, f)
         \/ \E via \in {"direct", "inst", "cls", "sub", "subinst", "falsy"}, w \in 0..MaxWrap : Access(via, w)
-        \/ \E c \in Convs, p \in ArgPats : Call(c, p)
+        \/ \E c \in Convs, p \in ArgPats, x \in Ctxs : Call(c, p, x)
 Spec == Init /\ [][Next]_vars
 
 (* ---- the property, on the model (evaluated in every state in which an object has been accessed) ---- *)
@@ -163,6 +176,7 @@ ConventionsAgree ==        \* same bound object, same arguments; same body and o
       /\ x.bound = r.bound
       /\ <<x.a, x.b, x.k>> = <<r.a, r.b, r.k>>
       /\ (x.ran = r.ran => x.extra = r.extra /\ x.wrapped = r.wrapped)
+      /\ x.err = r.err                                       \* value or exception: the same for every convention
       /\ (x.ran # r.ran => HasSyncFn(deco) /\ c = "sync" /\ obj.wrap = 0)
 SyncFnWins ==              \* sync_fn runs exactly on the ways of calling that are the synchronous call
   obj # NoObj => \A p \in AllPats : \A c \in ConvsOf(deco, obj.wrap) :
@@ -189,5 +203,5 @@ CallsIndependent ==        \* what is prescribed for a call does not depend on t
        /\ o.cls = Classification(deco, o.wrap)]_vars
 
 Terminal == Len(hist) = MaxCalls
-Export == Terminal => PrintT(ToJson([deco |-> deco, defk |-> defk, body |-> body, h |-> hist]))
+Export == Terminal => PrintT(ToJson([deco |-> deco, defk |-> defk, body |-> body, ending |-> ending, fail |-> fail, h |-> hist]))
 =============================================================================
